@@ -34,7 +34,8 @@ THEOREMS = ["Sampler.place_iff", "Sampler.last_weight_is_one", "Sampler.weights_
             "Sampler.weightsMasked_monotone", "Sampler.zero_rate_interval_empty", "Sampler.never_in_zero_rate_bin",
             "Sampler.never_in_masked_bin", "Sampler.in_range", "Sampler.count_conserved", "Sampler.simulate_total", "Sampler.simulated_zero_in_zero_rate_bin", "Sampler.binary_sim_consumes_prefix",
             "Sampler.binary_sim_distinct_count", "Sampler.binary_sim_needs_enough_cells", "Sampler.binary_sim_needs_drawable_cells", "Sampler.quantile_def",
-            "Sampler.quantile_bounds", "Sampler.quantile_counts_ties", "Sampler.seed_zero_applied",
+            "Sampler.quantile_bounds", "Sampler.quantile_counts_ties", "Sampler.quantile_no_tolerance",
+            "Sampler.seed_zero_applied",
             "Sampler.result_is_function", "Sampler.injected_result_is_function", "Sampler.rounding_monotone",
             "Sampler.fdiv_self_eq_one"]
 TRUSTED = ["Lean 4.33 kernel", "axioms: propext, Classical.choice, Quot.sound at most",
@@ -47,8 +48,13 @@ RULE = ("rate vectors of 1..40 bins (1-D and 2-D) with leading / trailing / inte
         "and equal rates; draws = 0, the smallest subnormal, every cumulative boundary and its two neighbours, midpoints, "
         "1-2^-53, random; 1..5 simulations; Poisson / binary / Brier array-level tests and the seven public tests with "
         "injected numbers, the rejection loop fed with a prepared stream; seeds {0,1,2^32-1,random} run twice from "
-        "different ambient generator states incl. the two catalog magnitude tests. A case is non-trivial when a draw "
-        "sits on or next to a cumulative boundary or a zero-rate bin exists; distinct by (kind, rates, draws)")
+        "different ambient generator states incl. the two catalog magnitude tests; near-tie class: smooth forecasts "
+        "(neighbouring bins differ by 10^U(-13,-5) relative, plateaus of exactly equal bins) with 1..3 observed events in "
+        "the lowest / highest / a random bin and 20..400 simulations for all seven public tests, so that simulated "
+        "statistics lie a few ulps .. 1e-5 relative above and below the observed one and on it; the quantile must be the "
+        "exact fraction #{sim <= obs}/n of the RETURNED test_distribution. A case is non-trivial when a draw "
+        "sits on or next to a cumulative boundary, a zero-rate bin exists, or a simulated statistic lies within 1e-4 "
+        "relative of the observed one; distinct by (kind, rates, draws)")
 
 D10_SIG = "binary-sim:active-cells-exceed-positive-rate-cells"
 D10B_SIG = "binary-sim:active-cells-exceed-drawable-cells"
@@ -580,7 +586,7 @@ def do_public(run, drv, pending, case):
     expect_n = int(sum(Or)) if module == "poisson" else n_active(Or)
     w_ref = ref_weights(rates, masked)
     nontriv = (case["test"], tuple(case["rates"]), json.dumps(case.get("rows")), seed) if (
-        any(v <= 0 for v in rates) or (rows and is_boundary_case(w_ref, rows))) else None
+        any(v <= 0 for v in rates) or (rows and is_boundary_case(w_ref, rows)) or case.get("neartie")) else None
     run.case(case, nontriv)
     run.count(f"public-{case['test']}-{'injected' if rows is not None else 'seeded'}")
     if masked and infeasible(run, case, rates, expect_n):
@@ -621,7 +627,7 @@ def do_public(run, drv, pending, case):
             i = drv.ask(f"c06_run {'m' if masked else 'p'} {flist(rates)} {flist(rows[idx])}")
             pending.append(("run", case, i, call))
     else:
-        for call in rec:   # weights only (bit-exactness) + zero draws
+        for call in (rec[:1] if case.get("neartie") else rec):   # weights only (bit-exactness) + zero draws
             i = drv.ask(f"c06_run {'m' if masked else 'p'} {flist(rates)} -")
             pending.append(("weights", case, i, call))
     sims, ob = res.test_distribution, res.observed_statistic
@@ -727,6 +733,91 @@ def gen_public_case(rng, test=None, seeded=False):
     return case
 
 
+# ----------------------------------------------------------------------------- near ties of simulated and observed statistic
+def gen_smooth_rates(rng, n):
+    """a smooth forecast: neighbouring bins differ by a relative step of 10^U(-13,-5); plateaus give exact ties"""
+    base = 10.0 ** rng.uniform(-3, 1.5)
+    step = 10.0 ** rng.uniform(-13, -5)
+    style = rng.choice(["ramp", "ramp-down", "wiggle", "plateaus", "two-level"])
+    out = []
+    for i in range(n):
+        if style == "ramp":
+            f = 1.0 + i * step
+        elif style == "ramp-down":
+            f = 1.0 + (n - 1 - i) * step
+        elif style == "wiggle":
+            f = 1.0 + step * rng.uniform(-1, 1)
+        elif style == "plateaus":
+            f = 1.0 + (i // 2) * step          # pairs of exactly equal bins, neighbouring pairs nearly equal
+        else:
+            f = 1.0 + (i % 2) * step
+        out.append(base * f)
+    return out, "smooth-" + style
+
+
+def gen_neartie_case(rng, test, tier):
+    module, view, conditional = PUBLIC[test]
+    nx, ny, nm = rng.choice([(2, 1, 2), (3, 1, 1), (3, 2, 1), (3, 2, 2), (4, 2, 2), (6, 1, 2), (5, 2, 3)])
+    n = nx * ny * nm
+    rates, style = gen_smooth_rates(rng, n)
+    if not conditional:
+        # L-test: the number of events is a Poisson draw; a total near the observed count makes equal counts frequent
+        tot = sum(rates)
+        want = rng.choice([0.7, 1.0, 2.0])
+        rates = [v * want / tot for v in rates]
+    if rng.random() < 0.25 and n > 3:
+        rates[rng.randrange(n)] = 0.0              # a zero-rate bin inside a smooth forecast
+    pos = [i for i, v in enumerate(rates) if v > 0]
+    where = rng.choice(["low", "low", "high", "high", "random"])
+    nev = rng.choice([1, 1, 2, 2, 3])
+    order = sorted(pos, key=lambda i: (rates[i], i))
+    if where == "high":
+        order = order[::-1]
+    elif where == "random":
+        rng.shuffle(order)
+    if module != "poisson" or rng.random() < 0.5:
+        flat = order[:nev]                           # distinct bins (binary tests: distinct active cells)
+    else:
+        flat = [order[0]] * nev                      # several events in one bin
+    events = [[i // nm, i % nm] for i in flat]
+    nsim = rng.choice([20, 30, 40, 60]) if tier == "quick" else rng.choice([40, 100, 200, 400])
+    case = dict(kind="public", test=test, nx=nx, ny=ny, nm=nm, rates=hx(rates), events=events, nsim=nsim, style=style,
+                neartie=where)
+    fore, cat = build_public(case)
+    Fr, Or = public_inputs(case, fore, cat)
+    masked = module != "poisson"
+    ev = int(sum(Or)) if not masked else n_active(Or)
+    if masked and ev > len(drawable([float(v) for v in Fr])):
+        return None
+    if conditional and rng.random() < 0.5:
+        case["seed"] = None
+        g = numpy.random.RandomState(rng.randrange(2 ** 32))
+        case["rows"] = [hx(g.random_sample(ev).tolist()) for _ in range(nsim)]
+    else:
+        case["seed"] = rng.choice([0, 1, rng.randrange(2 ** 32)])
+        case["rows"] = None
+    return case
+
+
+def do_neartie(run, drv, pending, case):
+    res = do_public(run, drv, pending, case)
+    if res is None:
+        return
+    ob = float(res.observed_statistic)
+    sims = [float(v) for v in res.test_distribution]
+    if math.isnan(ob) or math.isinf(ob):
+        run.count("neartie:observed-not-finite")
+        return
+    band = 1e-4 * max(abs(ob), 1e-3)
+    above = sum(1 for v in sims if ob < v <= ob + band)
+    below = sum(1 for v in sims if ob - band <= v < ob)
+    ties = sum(1 for v in sims if v == ob)
+    run.count("neartie:" + ("+".join(k for k, c in (("above", above), ("below", below), ("tie", ties)) if c) or "none"))
+    run.extra["neartie_sims_just_above"] = run.extra.get("neartie_sims_just_above", 0) + above
+    run.extra["neartie_sims_just_below"] = run.extra.get("neartie_sims_just_below", 0) + below
+    run.extra["neartie_sims_exact_tie"] = run.extra.get("neartie_sims_exact_tie", 0) + ties
+
+
 # ----------------------------------------------------------------------------- catalog magnitude tests (seed handling)
 def do_catalog_seed(run, drv, pending, case):
     from csep.core.catalog_evaluations import resampled_magnitude_test, MLL_magnitude_test
@@ -826,7 +917,11 @@ def flush_all(run, drv, pending):
     flush(run, drv, pending)
 
 
-DISPATCH = dict(array=do_array, public=do_public, seed=do_seed, catseed=do_catalog_seed, direct=do_direct)
+def do_public_any(run, drv, pending, case):
+    return (do_neartie if case.get("neartie") else do_public)(run, drv, pending, case)
+
+
+DISPATCH = dict(array=do_array, public=do_public_any, seed=do_seed, catseed=do_catalog_seed, direct=do_direct)
 
 
 def run(run, rng, tier):
@@ -860,6 +955,13 @@ def run(run, rng, tier):
         if k % 200 == 199:
             flush_all(run, drv, pending)
     flush_all(run, drv, pending)
+    # near ties: smooth forecasts, many simulations, every public test
+    for test in PUBLIC:
+        for _ in range(8 if quick else 120):
+            case = gen_neartie_case(rng, test, tier)
+            if case:
+                do_neartie(run, drv, pending, case)
+        flush_all(run, drv, pending)
     # determinism for every seed incl. 0, every public test
     for test in PUBLIC:
         for seed in [0, 1, 2 ** 32 - 1] + [rng.randrange(2 ** 32) for _ in range(1 if quick else 4)]:
